@@ -356,6 +356,9 @@ def list_alt_form(ex, ty):
     src = it[1]
     while src[0] == "call" and src[1].split("::")[-1] in ("iter", "into_iter") and src[2]:
         src = src[2][0]
+    form_c = list_iter_form(back[0], succ, it)
+    if form_c:
+        return form_c
     # rest = self[1..] (through a view)
     if not (src[0] == "index" and from_self(src[1]) and src[2][0] == "struct" and src[2][1].endswith("RangeFrom") and dict(src[2][2]).get("start") == ("lit", "int", 1)):
         return None
@@ -375,6 +378,47 @@ def list_alt_form(ex, ty):
     if not empties or not all(any(c[0] == "empty" and c[2] is True and from_self(c[1]) for c in x.conds) for x in empties):
         return None
     return "first element, then ',' + element for each of self[1..]; nothing for an empty list"
+
+
+def list_iter_form(back, succ, it):
+    """(c) one explicit iterator over self: `let mut it = self.iter(); if let Some(first) = it.next() { first; for x in it { ',' x } }`
+    - the element taken by the single `next()` in front of the loop is written first, the loop then runs over the *same*
+    iterator (what is left of it), and nothing else touches the iterator; an empty list (next() is None) writes nothing."""
+    itsrc = it[1]
+    base = itsrc
+    while base[0] == "call" and base[1].split("::")[-1] in ("iter", "into_iter") and base[2]:
+        base = base[2][0]
+    if base == itsrc or not from_self(base):
+        return None
+    pre_items, nexts = [], []
+    for e in back.effects:
+        if e[0] == "loop_head":
+            break
+        if e[0] != "call":
+            continue
+        args = [strip_sites(a) for a in e[2]]
+        if is_wr(e[1]):
+            pre_items.append(args[0])
+        elif e[1].startswith(W):
+            return None
+        elif strip_sites(itsrc) in args:
+            if e[1].endswith("::next") and len(args) == 1:
+                nexts.append(e)
+            else:
+                return None         # skip(), nth(), a second consumer ...: not this form
+    if len(nexts) != 1 or len(pre_items) != 1:
+        return None
+    nx = ("call", nexts[0][1], (strip_sites(itsrc),))
+    first = pre_items[0]
+    if not (first[0] == "payload" and first[2] == SOME and first[3] == 0 and first[1][0] == "call" and first[1][1] == nx[1] and tuple(first[1][2]) == nx[2]):
+        return None
+    def is_none(c):
+        t = strip_sites(c[1])
+        return c[0] == "is" and c[2] == SOME and c[3] is False and t[0] == "call" and t[1] == nx[1] and tuple(t[2]) == nx[2]
+    empties = [x for x in succ if not trace(x)]
+    if not empties or not all(any(is_none(c) for c in x.conds) for x in empties):
+        return None
+    return "one iterator over self: the element taken by next() first, then ',' + element for what the same iterator still yields; nothing for an empty list"
 
 
 def rule_Q(ck, lib, tag=""):
